@@ -236,6 +236,7 @@ fn dispatch(scenario: &str, seed: u64, worker: usize, slot: &Slot) {
         "kvs-soak" => store::kvs_soak(seed, worker, slot),
         "tree-soak" => store::tree_soak(seed, worker, slot),
         "kvs-crash" => store::kvs_crash(seed, worker, slot),
+        "kvs-batch-snapshot" => store::kvs_batch_snapshot(seed, worker, slot),
         "tree-live" => store::tree_liveness(seed, worker, slot),
         other => panic!("unknown scenario {other}"),
     }
@@ -251,6 +252,7 @@ fn property_of(scenario: &str) -> &'static str {
         "kvs-verifier" => "C08",
         "kvs-soak" | "tree-soak" => "C01",
         "kvs-crash" => "C02",
+        "kvs-batch-snapshot" => "C06",
         "kvs-live" | "tree-live" => "C20",
         _ => "?",
     }
@@ -337,7 +339,13 @@ fn cmd_sched(args: &Args) -> i32 {
             }
         }
         if let Some((class, detail)) = res.failure.as_ref() {
-            let p = if (scenario == "kvs-soak" || scenario == "tree-soak") && class.contains("scan") { "C03" } else { property_of(scenario) };
+            let p = if (scenario == "kvs-soak" || scenario == "tree-soak") && class.contains("scan") {
+                "C03"
+            } else if scenario == "kvs-batch-snapshot" && class.starts_with("held-cursor") {
+                "C07"
+            } else {
+                property_of(scenario)
+            };
             let class = format!("{scenario}:{class}");
             if p == prop {
                 if failure_details.len() < 400 {
